@@ -15,7 +15,7 @@ Definition qctx (q : wfreq) (du dg : N) : N * N * N :=
 Lemma decide_wf_req cfg q fr cap du dg :
   wf_req q = true -> cfg_remap cfg = RemapOk du dg -> env_ok cfg cap q = true ->
   exists a, fst (decide cfg (encode_req q) fr cap) = (remap_call q :: expected_calls q (qctx q du dg), a)
-            /\ (needs_answer (q_op q) = true -> replies a = true).
+            /\ action_kind_ok (q_op q) a = true.
 Proof.
   intros Hwf Hre Henv. pose proof (wf_req_facts q Hwf) as F.
   destruct (wf_op_handler _ (wf_op q F)) as [f Hf].
@@ -49,7 +49,7 @@ Theorem answer_required : forall cfg q fr cap du dg,
 Proof.
   intros cfg q fr cap du dg Hwf Hre Henv Hna.
   destruct (decide_wf_req cfg q fr cap du dg Hwf Hre Henv) as [a [E Ha]].
-  rewrite E. exact (Ha Hna).
+  rewrite E. exact (action_kind_replies _ _ Hna Ha).
 Qed.
 
 (* ------------------------------------------------------------------ a replying action is one packet *)
